@@ -313,16 +313,40 @@ def check_optional_batch_item_fields(ctx, t):
             continue
         derefs = [x for x in walk_local(fn) if isinstance(x, ast.Attribute) and isinstance(x.value, ast.Attribute) and x.value.attr in OPT
                   and isinstance(x.value.value, ast.Name) and x.value.value.id in items]
-        if not derefs:
+        # the same field held in a local first:  payload = batch_item.response_payload; ... payload.protocol_versions
+        aliases = {}
+        for x in walk_local(fn):
+            if isinstance(x, ast.Assign) and len(x.targets) == 1 and isinstance(x.targets[0], ast.Name) and isinstance(x.value, ast.Attribute) and x.value.attr in OPT \
+                    and isinstance(x.value.value, ast.Name) and x.value.value.id in items:
+                aliases.setdefault(x.targets[0].id, []).append(x.value)
+        stores = {}
+        for x in walk_local(fn):
+            if isinstance(x, ast.Name) and isinstance(x.ctx, (ast.Store, ast.Del)):
+                stores[x.id] = stores.get(x.id, 0) + 1
+        aliases = {k: v[0] for k, v in aliases.items() if len(v) == 1 and stores.get(k) == 1}
+        alias_derefs = [x for x in walk_local(fn) if isinstance(x, ast.Attribute) and isinstance(x.ctx, ast.Load) and isinstance(x.value, ast.Name) and x.value.id in aliases]
+        if not derefs and not alias_derefs:
             continue
         g = CFG(fn)
         from ..dataflow import node_of_expr
-        for d in derefs:
+        for d in derefs + alias_derefs:
             n += 1
             node = node_of_expr(g, d)
-            item, fld = d.value.value.id, d.value.attr
+            if d in alias_derefs:
+                src_ = aliases[d.value.id]
+                item, fld = src_.value.id, src_.attr
+                local = d.value.id
+            else:
+                item, fld = d.value.value.id, d.value.attr
+                local = None
             ok = False
             for tt, lab in dominating_edges(g, node):
+                if local is not None:
+                    q = cmp_parts(tt.stmt)
+                    if U(tt.stmt) == local and lab == 'T':
+                        ok = True
+                    if q and U(q[0]) == local and isinstance(q[2], ast.Constant) and q[2].value is None and ((q[1] in ('IsNot', 'NotEq') and lab == 'T') or (q[1] in ('Is', 'Eq') and lab == 'F')):
+                        ok = True
                 p = cmp_parts(tt.stmt)
                 if p and U(p[0]) in ('%s.result_status.value' % item,) and enum_member(p[2]) == ('ResultStatus', 'SUCCESS') and ((p[1] in ('Eq', 'Is') and lab == 'T') or (p[1] in ('NotEq', 'IsNot') and lab == 'F')):
                     ok = True
